@@ -96,32 +96,65 @@ def mon_c01(spec, run):
             if t in owner and owner[t] != ctx:
                 shared.add(t)
             owner[t] = ctx
+    # A caller's own SYS:MODELNAME query looks like a keep-alive probe on the wire.  Where the shim-level queue observations are available the
+    # library's own probes can be told apart (the sender wrote a line that differs from the item it dequeued); the user's queries are then
+    # ordinary commands.  If that attribution is not plausible (more "user" probe lines than were submitted) it is not used.
+    lib = {hi for _, hi, _ in library_probes(tr)} if any(e["k"] == "qget" for e in tr) else None
+    n_user_probe = sum(1 for c in cs if text_of(c["op"]) == PROBE)
+    probe_ident = lib is not None and sum(1 for _, line, seq in wire_lines if line == PROBE and seq not in lib) <= n_user_probe
     for ctx, lst in by_ctx.items():
-        texts = [text_of(c["op"]) for c in lst]
-        if PROBE in texts or any(t in shared for t in texts):
+        texts_all = [text_of(c["op"]) for c in lst]
+        texts = list(texts_all) if probe_ident else [t for t in texts_all if t != PROBE]
+        if any(t in shared for t in texts):
             continue   # identity on the wire ambiguous for this caller: not checked
         tset = set(texts)
-        mine = [line for _, line, _ in wire_lines if line in tset]
+        mine = [(line, wi) for wi, (_, line, seq) in enumerate(wire_lines) if line in tset and not (line == PROBE and seq in (lib or ()))]
         # match every wire line to the earliest not yet matched submission with that text (repeated submissions allowed)
         used = [False] * len(texts)
         pos = []
+        wpos = {}
         ok = True
-        for line in mine:
+        for line, wi in mine:
             k = next((i for i, t in enumerate(texts) if t == line and not used[i]), None)
             if k is None:
-                bad.append(("twice", f"command {line[:80]!r} of caller {ctx} was written {mine.count(line)} times but submitted {texts.count(line)} time(s)"))
+                bad.append(("twice", f"command {line[:80]!r} of caller {ctx} was written {[l for l, _ in mine].count(line)} times but submitted {texts.count(line)} time(s)"))
                 ok = False
                 break
             used[k] = True
             pos.append(k)
+            wpos[k] = wi
         if not ok:
             continue
         if pos != sorted(pos):
-            bad.append(("order", f"commands of caller {ctx} appear on the wire out of submission order: {mine[:6]}"))
+            bad.append(("order", f"commands of caller {ctx} appear on the wire out of submission order: {[l for l, _ in mine][:6]}"))
             continue
         if pos and pos != list(range(len(pos))) and lc["close_call"] is None and lc["fault"] is None and lc["thread_exc"] is None:
             missing = texts[min(set(range(max(pos) + 1)) - set(pos))]
             bad.append(("lost", f"command {missing[:80]!r} of caller {ctx} never reached the wire although later ones did"))
+            continue
+        if PROBE in texts_all and not probe_ident:
+            # a caller's own MODELNAME queries look like keep-alive probes; what can still be said: the k queries this caller submitted between
+            # two of its other commands must be on the wire between those two (the library's own probes only add to the count)
+            k_np = -1
+            need = 0
+            prev_w = None
+            for t in texts_all:
+                if t == PROBE:
+                    need += 1
+                    continue
+                k_np += 1
+                if k_np in wpos:
+                    if prev_w is not None and need:
+                        have = sum(1 for _, line, _ in wire_lines[prev_w + 1:wpos[k_np]] if line == PROBE)
+                        if have < need:
+                            bad.append(("order", f"caller {ctx} submitted {need} MODELNAME quer{'y' if need == 1 else 'ies'} between {texts[k_np - 1][:40]!r} and {texts[k_np][:40]!r}, "
+                                                 f"but only {have} such line(s) were written between those two commands"))
+                            break
+                    prev_w = wpos[k_np]
+                    need = 0
+                else:
+                    prev_w = None
+                    need = 0
     # quiescence: connection stayed up and idle -> everything submitted while up has been written
     if lc["connect"] and lc["connect"]["exc"] is None and lc["close_call"] is None and lc["fault"] is None and lc["thread_exc"] is None and run.status == "all-finished":
         end_t = lc["final_t"] if lc["final_t"] is not None else run.now
